@@ -433,6 +433,139 @@ Proof.
   - intros (n & es & Hn & Hl & He). exists n. split; [exact Hn|]. unfold table_entries_of. rewrite Hl. exact He.
 Qed.
 
+
+(** * Crash images keep the structure needed to recover again (M7) *)
+
+(** a log file that may end in a torn record: it reads as [recs], and if the reader reports it intact it is a
+    well formed log (so that it may be appended to) *)
+Definition tlog (file : bytes) (recs : list bytes) : Prop :=
+  exists i, log_read_all_x file = mkRX recs false 0 i /\ (i = true -> exists boff, logfile file recs boff).
+
+Lemma tlog_logfile f recs boff : logfile f recs boff -> tlog f recs.
+Proof. intros H. exists true. split; [apply (logfile_read _ _ _ H)|]. intros _. exists boff. exact H. Qed.
+
+Lemma tlog_torn f recs boff r t :
+  logfile f recs boff -> (t < length (fst (log_append boff r)))%nat ->
+  tlog (f ++ firstn t (fst (log_append boff r))) recs.
+Proof.
+  intros H Ht. destruct (logfile_read_torn _ _ _ r t H Ht) as [i Hr]. exists i. split; [exact Hr|].
+  intros ->. eexists. apply (logfile_torn_intact _ _ _ _ _ H Ht). rewrite Hr. reflexivity.
+Qed.
+
+(** a directory from which recovery succeeds and re-establishes the invariant: the state of a clean shutdown
+    or of a crash *)
+Record CS (img : image) (dv : dview) (bsF : list batch) (Q : N) : Prop := mkCS {
+  cs_rec : Rec img dv bsF Q;
+  cs_manfile : exists file, lookupN (dv_man dv) (i_manifests img) = Some file /\
+                            tlog file (map vchange_encode (dv_changes dv));
+  cs_logfiles : Forall (fun nb => exists f, lookupN (fst nb) (i_wals img) = Some f /\
+                                           tlog f (map batch_bytes (snd nb))) (dv_logs dv);
+  cs_prev : ma_prev_wal (man_acc (dv_changes dv)) = None;
+  cs_next : dv_man dv <= dv_next dv /\ dv_wal dv <= dv_next dv;
+  cs_hist : NoDup (lvl_nums (ma_added (man_acc (dv_changes dv)))) /\
+            forall l f, In (l, f) (ma_added (man_acc (dv_changes dv))) ->
+              fm_num f <= dv_next dv /\ CodecProofs.fmeta_ok f = true /\ (l < NLEVELS)%nat;
+  cs_ptr : Forall ptr_ok (ma_pointers (man_acc (dv_changes dv)));
+  cs_seq : nops (bsF ++ log_batches (dv_logs dv)) < two64
+}.
+
+Definition CSE (img : image) (bs : list batch) : Prop :=
+  exists dv bsF Q, CS img dv bsF Q /\ bs = bsF ++ log_batches (dv_logs dv).
+
+Lemma CSE_good img bs : CSE img bs -> Good img bs.
+Proof. intros (dv & bsF & Q & C & ->). apply (Rec_good _ _ _ _ (cs_rec _ _ _ _ C)). Qed.
+
+Lemma Inv_CS d dv bsF Q older bsM : Inv d dv bsF Q older bsM -> CS (pd_img d) dv bsF Q.
+Proof.
+  intros [R0 Hv Hm Ho Hvw Hp Hn Hwn Hmf Hlg Hlfs Hwf Hmem Himm Hseq Hh Hptr Hb].
+  constructor; try assumption.
+  - destruct Hmf as (file & Hl & Hlf). exists file. split; [exact Hl|apply (tlog_logfile _ _ _ Hlf)].
+  - rewrite Hlg. apply Forall_app. split.
+    + eapply Forall_impl; [|exact Hlfs]. intros nb (f & bo & Hl & Hlf). exists f. split; [exact Hl|apply (tlog_logfile _ _ _ Hlf)].
+    + constructor; [|constructor]. destruct Hwf as (f & Hl & Hlf). exists f. split; [exact Hl|apply (tlog_logfile _ _ _ Hlf)].
+  - apply Hp.
+  - tauto.
+  - apply Hptr.
+  - rewrite <- Hseq. apply Hb.
+Qed.
+
+Lemma InvE_CSE d acked : (exists dv bsF Q older bsM, Inv d dv bsF Q older bsM /\ acked = bsF ++ log_batches (dv_logs dv)) ->
+  CSE (pd_img d) acked.
+Proof. intros (dv & bsF & Q & older & bsM & I & ->). exists dv, bsF, Q. split; [apply (Inv_CS _ _ _ _ _ _ I)|reflexivity]. Qed.
+
+Lemma CS_invisible_op img dv bsF Q o : CS img dv bsF Q -> invisible dv o -> CS (apply_fsop img o) dv bsF Q.
+Proof.
+  intros [R Hmf Hlf Hp Hn Hh Hptr Hs] Hi.
+  pose proof (proj2 (proj2 (proj2 (proj2 (rec_dur _ _ _ _ R))))) as Dw.
+  constructor; try assumption.
+  - apply Rec_invisible; assumption.
+  - rewrite (invisible_lookup_man _ dv o Hi). exact Hmf.
+  - rewrite Forall_forall in *. intros nb Hnb. destruct (Hlf nb Hnb) as (f & Hl & Ht). exists f. split; [|exact Ht].
+    rewrite (invisible_lookup_wal _ dv o (fst nb) Hi); [exact Hl|].
+    assert (Hin : In (fst nb) (map fst (dv_logs dv))) by (apply in_map; exact Hnb).
+    apply (DWal_names _ _ _ _ Dw) in Hin. tauto.
+Qed.
+
+Lemma CS_invisible_ops ops : forall img dv bsF Q,
+  CS img dv bsF Q -> Forall (invisible dv) ops -> CS (apply_fsops img ops) dv bsF Q.
+Proof.
+  induction ops as [|o ops IH]; intros img dv bsF Q C H; [exact C|].
+  cbn [apply_fsops fold_left]. apply IH; [apply CS_invisible_op; [exact C|exact (Forall_inv H)]|exact (Forall_inv_tail H)].
+Qed.
+
+Lemma all_crash_invisible_cs img dv bsF Q ops :
+  CS img dv bsF Q -> Forall (invisible dv) ops ->
+  all_crash (fun i => CSE i (bsF ++ log_batches (dv_logs dv))) img ops.
+Proof.
+  intros C H. revert img C. induction H as [|o ops Ho _ IH]; intros img C.
+  - apply all_crash_nil. exists dv, bsF, Q. auto.
+  - apply all_crash_cons.
+    + exists dv, bsF, Q. auto.
+    + intros k. exists dv, bsF, Q. split; [|reflexivity]. apply CS_invisible_ops; [exact C|apply invisible_torn; exact Ho].
+    + apply IH. apply CS_invisible_op; assumption.
+Qed.
+
+(** a torn record at the end of the current manifest *)
+Lemma CS_torn_manifest img dv bsF Q f boff r t :
+  CS img dv bsF Q ->
+  lookupN (dv_man dv) (i_manifests img) = Some f ->
+  logfile f (map vchange_encode (dv_changes dv)) boff ->
+  (t < length (fst (log_append boff r)))%nat ->
+  CS (apply_fsop img (FsAppend (FManifest (dv_man dv)) (firstn t (fst (log_append boff r))))) dv bsF Q.
+Proof.
+  intros [R Hmf Hlf Hp Hn Hh Hptr Hs] Hl Hf Ht.
+  constructor; try assumption.
+  - apply (Rec_manifests img); try reflexivity; [exact R|].
+    cbn [apply_fsop i_manifests]. apply (DMan_app_same _ _ (dv_changes dv)).
+    + intros file' Hl'. pose proof (eq_trans (eq_sym Hl') Hl) as E. injection E as ->.
+      apply (logfile_read_torn _ _ _ _ _ Hf Ht).
+    + destruct R as [D _ _ _ _]. apply D.
+  - exists (f ++ firstn t (fst (log_append boff r))). split; [|apply (tlog_torn _ _ _ _ _ Hf Ht)].
+    cbn [apply_fsop i_manifests]. rewrite lookupN_app_assoc, N.eqb_refl.
+    etransitivity; [apply (f_equal (option_map _)); exact Hl|reflexivity].
+Qed.
+
+(** the crash points of one append to the current manifest, given what holds after the complete append *)
+Lemma crash_cs_manifest_append img dv bsF Q f boff r bs :
+  CS img dv bsF Q -> bs = bsF ++ log_batches (dv_logs dv) ->
+  lookupN (dv_man dv) (i_manifests img) = Some f ->
+  logfile f (map vchange_encode (dv_changes dv)) boff ->
+  CSE (apply_fsop img (FsAppend (FManifest (dv_man dv)) (fst (log_append boff r)))) bs ->
+  all_crash (fun i => CSE i bs) img [FsAppend (FManifest (dv_man dv)) (fst (log_append boff r))].
+Proof.
+  intros C -> Hl Hf Hafter. apply all_crash_cons.
+  - exists dv, bsF, Q. auto.
+  - intros k. cbn [torn_fsop apply_fsops fold_left].
+    destruct (Nat.lt_ge_cases k (length (fst (log_append boff r)))) as [L|L].
+    + exists dv, bsF, Q. split; [|reflexivity]. apply (CS_torn_manifest _ _ _ _ _ _ _ _ C Hl Hf L).
+    + rewrite firstn_all2 by exact L. exact Hafter.
+  - apply all_crash_nil. exact Hafter.
+Qed.
+
+Lemma all_crash_impl (P P' : image -> Prop) img ops :
+  (forall i, P i -> P' i) -> all_crash P img ops -> all_crash P' img ops.
+Proof. intros H Ha n torn Hn. apply H. apply Ha. exact Hn. Qed.
+
 Lemma NoDup_snoc {A} (l : list A) x : NoDup l -> ~ In x l -> NoDup (l ++ [x]).
 Proof.
   intros Hl Hx. induction Hl as [|y l Hy Hl IH]; cbn [app]; [constructor; [intros []|constructor]|].
@@ -789,6 +922,25 @@ Proof.
     + fold img2. apply (all_crash_invisible _ dv2 (bsF ++ bsI) Q); [|apply flush_commit|apply flush_gc_invisible].
       intros img' R. rewrite <- flush_acked. apply (Rec_good _ _ _ _ R).
 Qed.
+Lemma flush_after_cs : CSE img2 (bsF ++ log_batches (dv_logs dv)).
+Proof.
+  exists dv2, (bsF ++ bsI), Q. split; [apply (Inv_CS _ _ _ _ _ _ flush_inv3)|]. symmetry. apply flush_acked.
+Qed.
+
+Lemma flush_crash_cs :
+  all_crash (fun i => CSE i (bsF ++ log_batches (dv_logs dv))) (pd_img d) (ops1 ++ [op2] ++ gc_ops d3).
+Proof.
+  pose proof (Inv_CS _ _ _ _ _ _ I) as C0.
+  apply all_crash_app.
+  - apply (all_crash_invisible_cs _ _ _ _ _ C0 flush_ops1_invisible).
+  - fold img1. pose proof (CS_invisible_ops _ _ _ _ _ C0 flush_ops1_invisible) as C1. fold ops1 img1 in C1.
+    apply all_crash_app.
+    + destruct flush_manfile1 as (file & Hl & Hlf). pose proof flush_after_cs as Ha.
+      unfold img2, op2 in Ha. unfold op2. rewrite flush_man_eq in *.
+      apply (crash_cs_manifest_append img1 dv bsF Q file (pd_manifest_boff d) _ _ C1 eq_refl Hl Hlf Ha).
+    + cbn [apply_fsops fold_left]. fold img2. rewrite <- flush_acked.
+      apply (all_crash_invisible_cs img2 dv2 (bsF ++ bsI) Q); [apply (Inv_CS _ _ _ _ _ _ flush_inv3)|apply flush_gc_invisible].
+Qed.
 End FLUSH.
 
 (** * Interface of the step lemmas *)
@@ -987,4 +1139,86 @@ Proof.
     + apply (flush_inv d dv bsF Q older bsM I es Himm level size seq Hok H3 H2 H1 Hs2 H v' Hedit).
     + symmetry. apply (flush_acked d dv bsF Q older bsM I es level size seq v').
   - apply (flush_crash d dv bsF Q older bsM I es Himm level size seq Hok H3 H2 H1 Hs2 H v' Hedit).
+Qed.
+
+(** * The step lemmas again, with crash images that can be recovered from repeatedly (M7) *)
+
+Lemma write_cs_torn d dv bsF Q older bsM b t :
+  Inv d dv bsF Q older bsM -> bok (pd_seq d + 1, b) ->
+  (t < length (fst (log_append (pd_wal_boff d) (batch_bytes ((pd_seq d + 1)%N, b)))))%nat ->
+  CS (apply_fsop (pd_img d) (FsAppend (FWal (pd_wal d))
+        (firstn t (fst (log_append (pd_wal_boff d) (batch_bytes (pd_seq d + 1, b))))))) dv bsF Q.
+Proof.
+  intros I Hb Ht. pose proof (write_rec_torn d dv bsF Q older bsM I b Hb t) as R.
+  apply Nat.leb_gt in Ht. rewrite Ht in R. apply Nat.leb_gt in Ht.
+  pose proof (Inv_CS _ _ _ _ _ _ I) as [R0 Hmf Hlf Hp Hn Hh Hptr Hs].
+  constructor; try assumption.
+  cbn [apply_fsop i_wals]. rewrite (iv_logs _ _ _ _ _ _ I) in *. apply Forall_app in Hlf. destruct Hlf as [Hlo _].
+  apply Forall_app. split.
+    + rewrite Forall_forall in *. intros nb Hnb. destruct (Hlo nb Hnb) as (f & Hl & Hf). exists f. split; [|exact Hf].
+      rewrite lookupN_app_assoc. destruct (fst nb =? pd_wal d) eqn:E; [|exact Hl].
+      apply N.eqb_eq in E. exfalso.
+      pose proof (DWal_nodup _ _ _ (proj2 (proj2 (proj2 (proj2 (rec_dur _ _ _ _ R0)))))) as Hnd.
+      rewrite (iv_logs _ _ _ _ _ _ I), map_app in Hnd. cbn [map fst] in Hnd.
+      apply NoDup_remove_2 in Hnd. apply Hnd. rewrite app_nil_r. rewrite <- E. apply in_map. exact Hnb.
+    + constructor; [|constructor]. destruct (iv_walfile _ _ _ _ _ _ I) as (f & Hl & Hf).
+      exists (f ++ firstn t (fst (log_append (pd_wal_boff d) (batch_bytes (pd_seq d + 1, b))))).
+      cbn [fst snd]. split; [|apply (tlog_torn _ _ _ _ _ Hf Ht)].
+      rewrite lookupN_app_assoc, N.eqb_refl, Hl. reflexivity.
+Qed.
+
+Theorem write_step_c : forall d acked b,
+  InvE d acked -> write_okb d b = true ->
+  let batch := (pd_seq d + 1, b) in
+  CSE (pd_img d) acked /\
+  forall t, CSE (apply_fsop (pd_img d) (FsAppend (FWal (pd_wal d)) (firstn t (fst (log_append (pd_wal_boff d) (batch_bytes batch))))))
+                (if (length (fst (log_append (pd_wal_boff d) (batch_bytes batch))) <=? t)%nat then acked ++ [batch] else acked).
+Proof.
+  intros d acked b IE Hok. cbv zeta. split; [apply InvE_CSE; exact IE|].
+  destruct (write_step d acked b IE Hok) as (_ & Himg & _ & IE' & _). cbv zeta in Himg, IE'.
+  destruct IE as (dv & bsF & Q & older & bsM & I & ->).
+  unfold write_okb in Hok. apply andb_true_iff in Hok. destruct Hok as [Hb _]. apply bokb_bok in Hb.
+  intros t. destruct (length _ <=? t)%nat eqn:E.
+  - apply Nat.leb_le in E. rewrite firstn_all2 by exact E. rewrite <- Himg. apply InvE_CSE. exact IE'.
+  - apply Nat.leb_gt in E. exists dv, bsF, Q. split; [|reflexivity]. apply (write_cs_torn _ _ _ _ _ _ _ _ I Hb E).
+Qed.
+
+Theorem rotate_step_c : forall d acked,
+  InvE d acked -> (pd_imm d <> None \/ rotate_okb d = true) ->
+  all_crash (fun i => CSE i acked) (pd_img d) (snd (p_rotate d)).
+Proof.
+  intros d acked IE Hok. pose proof (InvE_CSE _ _ IE) as C0.
+  destruct (rotate_step d acked IE Hok) as (Himg & IE' & _). pose proof (InvE_CSE _ _ IE') as C1.
+  destruct (pd_imm d) as [es|] eqn:Himm.
+  - unfold p_rotate. rewrite Himm. cbn [snd]. apply all_crash_nil. exact C0.
+  - rewrite (rotate_eq d Himm) in *. cbn [fst snd pd_img apply_fsops fold_left] in *.
+    apply all_crash_cons; [exact C0| |apply all_crash_nil; exact C1].
+    intros k. cbn [torn_fsop apply_fsops fold_left]. exact C1.
+Qed.
+
+Theorem flush_step_c : forall d acked level size seq d' ops,
+  InvE d acked -> (pd_imm d = None \/ flush_okb d level size seq = true) ->
+  p_flush d level size seq = Some (d', ops) ->
+  all_crash (fun i => CSE i acked) (pd_img d) ops.
+Proof.
+  intros d acked level size seq d' ops IE Hok Hfl. pose proof (InvE_CSE _ _ IE) as C0.
+  destruct (pd_imm d) as [es|] eqn:Himm.
+  2:{ unfold p_flush in Hfl. rewrite Himm in Hfl. injection Hfl as <- <-. apply all_crash_nil. exact C0. }
+  destruct Hok as [Hok|Hok]; [congruence|].
+  destruct IE as (dv & bsF & Q & older & bsM & I & ->).
+  unfold flush_okb in Hok. rewrite Himm in Hok.
+  repeat (apply andb_true_iff in Hok; destruct Hok as [Hok ?]).
+  apply N.ltb_lt in Hok. apply N.ltb_lt in H3. apply N.ltb_lt in H2. apply N.leb_le in H1. apply N.leb_le in H.
+  rewrite (recorded_seq_durable _ _ (rec_dur _ _ _ _ (iv_rec _ _ _ _ _ _ I))) in H1.
+  assert (Hs2 : forall e, In e es -> ik_seq (fst e) <= seq).
+  { intros e He. rewrite forallb_forall in H0. apply N.leb_le. apply H0. exact He. }
+  destruct (apply_edit (pd_ver d)
+              (edit_of (mkVC (Some (pd_wal d)) None None None [] []
+                 (match table_meta (pd_next d + 1) size es with Some f => [(level, f)] | None => [] end))))
+    as [v'|] eqn:Hedit.
+  2:{ unfold p_flush in Hfl. rewrite Himm in Hfl. unfold log_and_apply in Hfl.
+      cbn [pd_ver vc_deleted vc_new] in Hfl. rewrite Hedit in Hfl. discriminate. }
+  rewrite (flush_eq d dv bsF Q older bsM I es Himm level size seq v' Hedit) in Hfl.
+  injection Hfl as <- <-.
+  apply (flush_crash_cs d dv bsF Q older bsM I es Himm level size seq Hok H3 H2 H1 Hs2 H v' Hedit).
 Qed.
